@@ -186,8 +186,10 @@ func (fx *FnCtx) noteHeapSymbol(h *Term, name string, leaf Leaf) {
 		// a slice held in memory has len <= cap (for every location of the heap, so that the fact is
 		// available under quantifiers too)
 		lenName := strings.TrimSuffix(name, ".cap") + ".len"
-		if hi, ok := fx.V.heapLeaves[lenName]; ok && h == Sym("H0_"+tc.Mode.String()+"_"+name, h.Sort) {
-			hl := Sym("H0_"+tc.Mode.String()+"_"+lenName, hi.Sort)
+		if h == Sym("H0_"+tc.Mode.String()+"_"+name, h.Sort) {
+			// the length heap has the shape of the capacity heap (both hold indices of this mode); the
+			// table entry may have been left by a function verified in the other integer mode
+			hl := Sym("H0_"+tc.Mode.String()+"_"+lenName, h.Sort)
 			var bound []*Term
 			cl, cc := hl, h
 			for cc.Sort.Kind == SArray {
